@@ -313,9 +313,11 @@ namespace ST
     void apply_format(ST::format_writer &data, arg0_T &&arg0, args_T &&...args)
     {
         enum { num_formatters = 1 + sizeof...(args) };
+        // Arguments are copied, never moved from:  if formatting throws,
+        // an argument passed as an rvalue must still hold its value.
         formatter_ref_t formatters[num_formatters] = {
-            make_formatter_ref(std::forward<arg0_T>(arg0)),
-            make_formatter_ref(std::forward<args_T>(args))...
+            make_formatter_ref(arg0),
+            make_formatter_ref(args)...
         };
         size_t index = 0;
         while (data.next_format()) {
